@@ -388,7 +388,7 @@ def check(pid, tier, seed):
     ctx = Ctx(pid, tier, seed)
     ctx.driver_ok = driver_ok
     changed_src = anchored_changes(pid)
-    ctx.escalate = bool(changed_src)
+    ctx.escalate = bool(changed_src) and not os.environ.get("VERIF_NO_ESCALATE")
     out = mod.run(ctx)
     for d in out.disagreements[:1]:
         broken.append(("correspondence", d.get("op", "?"), "model and implementation differ"))
